@@ -3,10 +3,11 @@
 #  1. patch applies to current /repo HEAD, 2. crate builds with all features, 3. existing suite (674 lib tests) passes,
 #  4. demo (demo.rs as an integration test, or demo.sh run from the worktree root) fails with the change, 5. passes without it
 #  (behaviour-preserving refactorings carry no demo: 4 and 5 are null).  Result -> seeded_staging/<id>/confirm.json
-WT=/tmp/wt/confirm
+WT=${CONFIRM_WT:-/tmp/wt/confirm}
 FEAT="vec8 vec16 vec32 vec64 rgb rgba uv uvw"
 git -C /repo worktree remove --force $WT 2>/dev/null
 git -C /repo worktree add -q --detach $WT HEAD || exit 2
+cp /repo/Cargo.lock $WT/Cargo.lock 2>/dev/null
 
 ARGS=(); for a in "$@"; do ARGS+=("$(realpath "$a")"); done
 cd $WT
